@@ -75,7 +75,7 @@ def run(ctx):
     # ---- A1
     f = ctx.fn(I + 'RnAndModify(unsigned int,StepValue,bool)')
     ctx.inst(A1)
-    SM = summ.summary(ctx, f)
+    SM = summ.summary(ctx, f, asserts='ignore')
     RU = '([] %sr) $0)' % REGS
     STEP = '(call Teakra::Interpreter::StepAddress on this $0 %s $1 $2)' % RU
     rets = SM.returns()
@@ -165,13 +165,33 @@ def run(ctx):
     sw = [n for n in walk(f['body']) if n.get('k') == 'switch' and r.r(n['cond']) == '$2']
     ctx.require(len(sw) == 1, 'StepAddress: switch over the step kind not found')
     en = {e['name']: e['v'] for e in ctx.F['enums']['StepValue']['enumerators']}
-    got = {}
+    # the locals are recognised by role, not by name: the step is the local given a constant in the arms, the two mode
+    # markers are the (other) locals set to true in some arms
+    per_arm = []
     for arm in switch_arms(sw[0]):
-        s_ = [const_value(n['rhs']) for st in arm['stmts'] for n in walk(st) if n.get('k') == 'assign' and r.r(n['lhs']) == 'l:s' and n.get('op') == '=']
-        m1 = any(r.r(n['lhs']) == 'l:step2_mode1' for st in arm['stmts'] for n in walk(st) if n.get('k') == 'assign')
-        m2 = any(r.r(n['lhs']) == 'l:step2_mode2' for st in arm['stmts'] for n in walk(st) if n.get('k') == 'assign')
+        asg = {}
+        for st in arm['stmts']:
+            for n in walk(st):
+                if n.get('k') == 'assign' and n.get('op') == '=':
+                    t_ = unwrap_casts(n.get('lhs'))
+                    if isinstance(t_, dict) and t_.get('k') == 'ref' and t_.get('dk') == 'local':
+                        cv_ = const_value(n.get('rhs'))
+                        asg[t_['name']] = cv_ if cv_ is not None else 'expr'
+        per_arm.append((arm, asg))
+    from collections import Counter
+    cnt = Counter(nm for arm, asg in per_arm for nm, v in asg.items() if isinstance(v, int) and not isinstance(v, bool))
+    step_var = cnt.most_common(1)[0][0] if cnt else None
+    flag_arms = {}
+    for arm, asg in per_arm:
+        for nm, v in asg.items():
+            if nm != step_var:
+                flag_arms.setdefault(nm, set()).update(arm['labels'])
+    m1_var = next((nm for nm, ls in flag_arms.items() if en.get('Increase2Mode1') in ls), None)
+    m2_var = next((nm for nm, ls in flag_arms.items() if en.get('Increase2Mode2') in ls), None)
+    got = {}
+    for arm, asg in per_arm:
         for l in arm['labels']:
-            got[l] = (s_[0] if len(s_) == 1 else s_, m1, m2)
+            got[l] = (asg.get(step_var) if step_var in asg else [], bool(m1_var and m1_var in asg), bool(m2_var and m2_var in asg))
     WANT = {'Zero': (0, False, False), 'Increase': (1, False, False), 'Decrease': (0xFFFF, False, False),
             'Increase2Mode1': (2, True, False), 'Decrease2Mode1': (0xFFFE, True, False),
             'Increase2Mode2': (2, False, True), 'Decrease2Mode2': (0xFFFE, False, True)}
@@ -181,13 +201,13 @@ def run(ctx):
             ctx.report(A3, f, sw[0], 'StepAddress ' + nm, 'step kind %s gives (step, mode1, mode2) = %s, architecture says %s' % (nm, got.get(en[nm]), w))
     ctx.inst(A3)
     t = r.s(f['body'])
-    if '(if (== l:s 0) (return $1))' not in t and '(if (== 0 l:s) (return $1))' not in t:
+    if '(if (== l:%s 0) (return $1))' % step_var not in t and '(if (== 0 l:%s) (return $1))' % step_var not in t:
         ctx.report(A3, f, f['body'], 'StepAddress zero step', 'a zero step does not return the address unchanged')
-    if '(+= $1 l:s)' not in t:
+    if '(+= $1 l:%s)' % step_var not in t:
         ctx.report(A3, f, f['body'], 'StepAddress linear', 'the non-modulo path is not address += s')
     # ---- A4
     f = ctx.fn(I + 'RnAndModify(unsigned int,StepValue,bool)')
-    SM = summ.summary(ctx, f)
+    SM = summ.summary(ctx, f, asserts='ignore')
     ctx.inst(A4)
     RU = '([] %sr) $0)' % REGS
     z = [c for e, c in SM.effect_conditions(lambda e: e[0] == 'write' and e[1] == RU and e[3] == '0').items()]
